@@ -382,6 +382,33 @@ impl Spec {
     self.contains(&|s| matches!(s, Spec::Replace { ops, .. } if ops.iter().any(|o| o.end < o.start)))
   }
 
+  /// The same tree with every reversed replacement range (end < start) put
+  /// in order; used by monitors whose statement covers start <= end only.
+  pub fn with_ordered_ranges(&self) -> Spec {
+    match self {
+      Spec::Concat { children, how } => Spec::Concat {
+        children: children.iter().map(|c| c.with_ordered_ranges()).collect(),
+        how: *how,
+      },
+      Spec::Replace { inner, ops } => Spec::Replace {
+        inner: Box::new(inner.with_ordered_ranges()),
+        ops: ops
+          .iter()
+          .map(|o| {
+            let mut o = o.clone();
+            if o.end < o.start {
+              std::mem::swap(&mut o.start, &mut o.end);
+            }
+            o
+          })
+          .collect(),
+      },
+      Spec::Cached { inner } => Spec::Cached { inner: Box::new(inner.with_ordered_ranges()) },
+      Spec::Boxed { inner } => Spec::Boxed { inner: Box::new(inner.with_ordered_ranges()) },
+      other => other.clone(),
+    }
+  }
+
   pub fn has_cached_under_replace(&self) -> bool {
     self.without_cached_under_replace() != *self
   }
